@@ -200,13 +200,18 @@ def gen_harness(items, prefix):
     for it in items:
         o.append('#include "%s.h"' % it["modname"])
     # host functions
+    emitted = set()
     for it in items:
         m = it["module"]
         for im in func_imports(m):
+            # with -m (several modules in one program) imported functions carry the importing module's prefix
+            cname = (it["modname"] + "_" if it.get("multi", True) else "") + mangle(im["mod"]) + "__" + mangle(im["name"])
+            if cname in emitted:
+                continue
+            emitted.add(cname)
             ty = m["types"][im["type"]]
             ret = CT[ty["r"][0]] if ty["r"] else "void"
             params = "".join(",%s a%d" % (CT[t], j) for j, t in enumerate(ty["p"]))
-            cname = mangle(im["mod"]) + "__" + mangle(im["name"])
             o.append("%s %s(void* inst%s) { int first_ = 1; hbegin(\"%s\", inst);" % (ret, cname, params, im["name"]))
             for j, t in enumerate(ty["p"]):
                 o.append("  HARG(\"%s\", %s, a%d);" % (t, CT[t], j))
@@ -333,9 +338,20 @@ def actual(items, w2c2, workdir, cc="gcc", cflags=("-O1",), batch=24, w2c2_opts=
         # the translated modules get the build configuration under test
         rc, out, err = run([cc, "-O0", "-w", *[f for f in cflags if f.startswith(("-fsanitize", "-std", "-m"))], *inc,
                             "-c", "harness.c", "-o", "harness.o"], timeout=600, cwd=d)
+        objs = []
+        for src in srcs:
+            if rc != 0:
+                break
+            ob = src[:-2] + ".o"
+            rc, out, err = run([cc, *cflags, "-w", *inc, "-c", src, "-o", ob], timeout=600, cwd=d)
+            if rc == 0:
+                # keep only the module's public (prefixed) symbols global, so that several translated
+                # modules can live in one test program whatever their internal names are
+                rc, out, err = run(["objcopy", "-w", "-G", src[:-2].split("-")[0] + "*", ob], timeout=60, cwd=d)
+            objs.append(ob)
         if rc == 0:
-            rc, out, err = run([cc, *cflags, "-w", *inc, *srcs, "harness.o", "-o", exe, "-lm", "-lpthread"],
-                               timeout=600, cwd=d)
+            rc, out, err = run([cc, *[f for f in cflags if f.startswith(("-fsanitize", "-m"))], *objs, "harness.o",
+                                "-o", exe, "-lm", "-lpthread"], timeout=600, cwd=d)
         if rc != 0:
             problems.append(("compile", [it["id"] for it in good], err[-3000:]))
             return []
@@ -353,7 +369,7 @@ def actual(items, w2c2, workdir, cc="gcc", cflags=("-O1",), batch=24, w2c2_opts=
     for recs in pmap(one, range(len(batches))):
         for r in recs:
             obs[(r["item"], r["k"])] = r
-    if not keep:
+    if not keep and not os.environ.get("VERIF_KEEP"):
         for bn in range(len(batches)):
             shutil.rmtree(os.path.join(workdir, "b%d" % bn), ignore_errors=True)
     return obs, problems
@@ -484,5 +500,7 @@ def replay(verdict, items, builds, sigfn=None, w2c2_flags=("-O1",), workdir=None
                    "distinct_nontrivial": len(nontrivial), "items": len(items)})
         return st, exp
     finally:
-        if not workdir:
+        if os.environ.get("VERIF_KEEP"):
+            print("kept work directory", wd)
+        elif not workdir:
             shutil.rmtree(wd, ignore_errors=True)
